@@ -595,3 +595,5 @@ def run(ck):
     check_reset(ck, prog)
     check_tab(ck, prog)
     check_lzma2_flags(ck, prog)
+    from . import C03
+    C03.check_dict_siblings(ck, common.program(ck, ("liblzma",), files=("/lz/lz_decoder.c", "/lzma/lzma_decoder.c")))
